@@ -11,6 +11,7 @@ import (
 	"sync"
 
 	corev1 "k8s.io/api/core/v1"
+	metav1 "k8s.io/apimachinery/pkg/apis/meta/v1"
 	k8sfake "k8s.io/client-go/kubernetes/fake"
 	"pgregory.net/rapid"
 	"tkestack.io/galaxy/pkg/api/k8s"
@@ -32,7 +33,7 @@ type c14gPod struct {
 }
 
 type c14gOp struct {
-	K       string `json:"k"` // add | del | restart | gc
+	K       string `json:"k"` // add | del | restart | gc | terminate (the pod object gets a deletion timestamp; its sandbox lives on until DEL)
 	Pod     int    `json:"pod"`
 	FailCNI bool   `json:"fail_cni,omitempty"`
 	FailIpt int    `json:"fail_ipt,omitempty"` // the n-th modifying iptables call of this request fails (0: none)
@@ -67,7 +68,7 @@ func genC14G(t *rapid.T) *c14gCase {
 		c.Occupied = []int{rapid.IntRange(0, 3).Draw(t, "gOccupied")}
 	}
 	for i, n := 0, rapid.IntRange(2, 12).Draw(t, "gOps"); i < n; i++ {
-		op := c14gOp{K: rapid.SampledFrom([]string{"add", "add", "add", "del", "del", "restart", "gc"}).Draw(t, "gOp"),
+		op := c14gOp{K: rapid.SampledFrom([]string{"add", "add", "add", "del", "del", "restart", "restart", "gc", "terminate"}).Draw(t, "gOp"),
 			Pod: rapid.IntRange(0, np-1).Draw(t, "gPod")}
 		if op.K == "add" || op.K == "del" {
 			switch rapid.IntRange(0, 5).Draw(t, "gFault") {
@@ -431,6 +432,18 @@ func checkC14G(c *c14gCase, r *vcore.Rec) *vcore.Failure {
 			}
 			r.Class("daemon_restarted")
 			r.Logf("%2d restart", oi)
+		case "terminate":
+			// the pod was deleted through the API: it carries a deletion timestamp for its grace period, the sandbox is still there
+			if live[op.Pod] == nil {
+				continue
+			}
+			if obj, err := kube.Tracker().Get(podsRes, "ns1", p.Name); err == nil {
+				pod := obj.(*corev1.Pod).DeepCopy()
+				now := metav1.Now()
+				pod.DeletionTimestamp = &now
+				_ = kube.Tracker().Update(podsRes, pod, "ns1")
+				r.Class("pod_terminating")
+			}
 		case "gc":
 			// the GC's clean callback for containers that are gone (already torn down, or never known): harmless
 			for _, cid := range everCids {
